@@ -57,8 +57,9 @@ class Src:
 class Gen:
     """One generated file. feature switches select the strata."""
 
-    def __init__(self, rng, flat=False, size=3, literals=True, shuffle_header=False):
+    def __init__(self, rng, flat=False, size=3, literals=True, shuffle_header=False, empties=False):
         self.rng = rng
+        self.empties = empties      # one message literal in three is empty (`{}` / `<>`)
         self.flat = flat
         self.size = size
         self.literals = literals
@@ -112,6 +113,8 @@ class Gen:
             fields.append("nested")
         if rng.chance(1, 3):
             fields.append("r")
+        if self.empties and rng.chance(1, 3):
+            fields = []
         first = True
         for f in fields:
             s.h("lit_nl" if not first else "lit_open")
@@ -325,7 +328,7 @@ class Gen:
     def file(self):
         s, rng = self.s, self.rng
         syntax = rng.choice(["proto2", "proto3", "proto3"])
-        self.custom = (not self.flat) and rng.chance(1, 2)
+        self.custom = (not self.flat) and (self.empties or rng.chance(1, 2))
         header = []     # closures, one per header declaration (after syntax)
 
         def d_syntax():
@@ -657,6 +660,137 @@ def render_blockcomments(items, rng, share=4, tight=False, limit=None):
     return "".join(out), placed[0]
 
 
+# ------------------------------------------------------------------ one `//` comment between two tokens of a declaration
+CLOSERS = (";", ",", "]", "}", ">", ")")
+
+
+def render_onelinecomment(items, rng):
+    """The plain layout without comments, and exactly one `//` comment between two adjacent tokens of one
+    declaration, the rest of the declaration continuing on the next line.  The gap is drawn in two steps so that
+    rare shapes are not drowned by frequent ones: two draws in three take a gap whose NEXT token is a closing
+    token or a separator (`;` `,` `]` `}` `>` `)`: what a `//` comment swallows when the formatter joins the
+    lines), the class of the gap (kind of the token before x token after) is drawn uniformly among the classes
+    the file has, then a gap of that class.  Returns (text, (token before, token after))."""
+    toks = [i for i, it in enumerate(items) if it[0] == "t"]
+    cands = {}
+    for a, b in zip(toks, toks[1:]):
+        hs = [items[k][1] for k in range(a + 1, b)]
+        if not hs or any(h in ("nl", "decl", "tc", "eof", "in", "de") for h in hs):
+            continue
+        pa, nb = items[a][1], items[b][1]
+
+        def kind(x):
+            if x in ("{", "}", "[", "]", "(", ")", "<", ">", ";", ",", "=", ":", "."):
+                return x
+            return "string" if x[:1] in "\"'" else "word"
+        empty = pa in ("}", "]", ">") and a >= 1 and items[toks[toks.index(a) - 1]][1] in ("{", "[", "<")
+        cands.setdefault((kind(pa) + ("-empty" if empty else ""), kind(nb)), []).append(b)
+    keys = sorted(cands)
+    closing = [k for k in keys if k[1] in CLOSERS]
+    if closing and rng.chance(2, 3):
+        keys = closing
+    at = None
+    if keys:
+        k = rng.choice(keys)
+        at = rng.choice(cands[k])
+    out = []
+    depth = 0
+    for i, (kind_, x) in enumerate(items):
+        if kind_ == "t":
+            if i == at:
+                # drop the blank the plain gap may have put, then comment + line break + continuation indent
+                while out and out[-1] == " ":
+                    out.pop()
+                out.append(rng.choice([" ", " ", "  ", ""]) + rng.choice(["// note %d" % rng.below(100), "// TODO", "//", "// a; b = {c} [d]"])
+                           + rng.choice(["", "", " "]) + "\n" + "  " * depth + rng.choice(["", "  ", "    "]))
+            out.append(x)
+        elif x == "sp" or x in ("co_sep", "lit_nl", "cat"):
+            out.append(" ")
+        elif x == "nl":
+            out.append("\n" + "  " * depth)
+        elif x == "in":
+            depth += 1
+        elif x == "de":
+            depth -= 1
+        elif x == "eof":
+            out.append("\n")
+    return "".join(out), (k if at is not None else None)
+
+
+# A catalogue of declaration forms: every bracket kind (message literal with braces / angle brackets, empty and not,
+# nested, in arrays; array literal, empty and not; compact options with one / several entries; rpc signature and
+# body; type arguments; extension paths), every value kind (word, number, signed number, string, concatenated
+# string, literal), every terminator (`;` after a value / a literal / compact options / a range, `,` between array
+# elements / compact options / ranges / literal fields, closing brackets).  lc_catalogue() puts ONE `//` comment
+# into EVERY gap between two adjacent tokens of every form: exhaustive over the positions of the catalogue.
+LC_PRE3 = """syntax = "proto3";
+package a.b;
+import "google/protobuf/descriptor.proto";
+extend google.protobuf.FileOptions { M m = 50001; string fs = 50002; }
+extend google.protobuf.FieldOptions { M fm = 50001; string fstr = 50002; }
+extend google.protobuf.MessageOptions { M mm = 50001; }
+extend google.protobuf.MethodOptions { M rm = 50001; }
+extend google.protobuf.EnumValueOptions { M em = 50001; }
+message M { repeated int32 a = 1; M n = 2; string s = 3; repeated M rn = 4; }
+"""
+LC_PRE2 = """syntax = "proto2";
+package a.b;
+import "google/protobuf/descriptor.proto";
+extend google.protobuf.FileOptions { optional M m = 50001; optional string fs = 50002; }
+extend google.protobuf.FieldOptions { optional M fm = 50001; optional string fstr = 50002; }
+extend google.protobuf.MessageOptions { optional M mm = 50001; }
+extend google.protobuf.MethodOptions { optional M rm = 50001; }
+extend google.protobuf.EnumValueOptions { optional M em = 50001; }
+message M { repeated int32 a = 1; optional M n = 2; optional string s = 3; repeated M rn = 4; }
+"""
+LC_SNIPPETS = [
+    (3, 'option (m) = {};'), (3, 'option (m) = {a: 1};'), (3, 'option (m) = {a: [1, 2]};'), (3, 'option (m) = {a: []};'),
+    (3, 'option (m) = {n: {}};'), (3, 'option (m) = {n {} a: 1};'), (3, 'option (m) = {n: <> s: "x"};'),
+    (3, 'option (m) = {n {a: 1}, s: "x" "y"; a: 2};'), (3, 'option (m) = {rn: [{}, {a: 1}]};'), (3, 'option (m) = {a: [1, 2] a: 3 rn {}};'),
+    (3, 'option (m).a = 1;'), (3, 'option (m).n.s = "x" "y";'), (3, 'option (m).n = {};'), (3, 'option (fs) = "x";'),
+    (3, 'option java_package = "a" "b";'), (3, 'option java_multiple_files = true;'), (3, 'option optimize_for = SPEED;'),
+    (3, 'message X { option (mm) = {}; }'), (3, 'message X { option (mm) = {a: 1}; }'), (3, 'message X { option deprecated = true; }'),
+    (3, 'message X { int32 f = 1 [(fm) = {}]; }'), (3, 'message X { int32 f = 1 [(fm) = {}, deprecated = true]; }'),
+    (3, 'message X { int32 f = 1 [deprecated = true, (fm) = {}]; }'), (3, 'message X { int32 f = 1 [(fm) = {a: 1}]; }'),
+    (3, 'message X { int32 f = 1 [(fm) = {a: [1]}, (fstr) = "x"]; }'), (3, 'message X { int32 f = 1 [deprecated = true]; }'),
+    (3, 'message X { int32 f = 1 [deprecated = true, json_name = "x"]; }'), (3, 'message X { int32 f = 1 [(fm).a = 1]; }'),
+    (3, 'message X { int32 f = 1 [(fm).n = {}]; }'), (3, 'message X { int32 f = 1 [(fstr) = "x" "y"]; }'),
+    (3, 'message X { int32 f = 1 [(fm) = {a: []}]; }'), (3, 'message X { int32 f = 1 [(fm) = <>]; }'), (3, 'message X { int32 f = 1; }'),
+    (3, 'message X { repeated M f = 1; }'), (3, 'message X { a.b.M f = 1; }'), (3, 'message X { .a.b.M f = 1; }'),
+    (3, 'message X { map<string, int32> f = 1; }'), (3, 'message X { map<string, M> f = 1 [deprecated = true]; }'),
+    (3, 'message X { reserved 1, 2; }'), (3, 'message X { reserved 1 to 3, 5 to max; }'), (3, 'message X { reserved "a", "b"; }'),
+    (3, 'message X { oneof o { int32 f = 1; string g = 2 [deprecated = true]; } }'), (3, 'message X { message Y {} enum Z { Z0 = 0; } }'),
+    (3, 'message X {}'), (3, 'enum E { E0 = 0; E1 = 1 [deprecated = true]; }'),
+    (3, 'enum E { E0 = 0 [(em) = {}]; E1 = -1 [(em) = {a: 1}, deprecated = true]; }'),
+    (3, 'enum E { option allow_alias = true; E0 = 0; E1 = 0; reserved 5, 7 to 9; }'),
+    (3, 'service S { rpc R(M) returns (M); }'), (3, 'service S { rpc R(M) returns (M) {} }'),
+    (3, 'service S { rpc R(stream M) returns (stream a.b.M) { option deprecated = true; } }'),
+    (3, 'service S { rpc R(M) returns (M) { option (rm) = {}; } }'),
+    (3, 'service S { option deprecated = true; rpc R(M) returns (M) { option (rm) = {a: 1}; }; }'),
+    (3, 'import "google/protobuf/any.proto";'), (3, 'import public "google/protobuf/any.proto";'),
+    (2, 'message X { extensions 1 to 3; }'), (2, 'message X { extensions 1, 5 to max; }'),
+    (2, 'message X { extensions 100 to 200; } extend X { optional int32 e = 100; }'),
+    (2, 'message X { optional int32 f = 1 [default = 5]; }'), (2, 'message X { optional string f = 1 [default = "a" "b", deprecated = true]; }'),
+    (2, 'message X { optional group G = 1 { optional int32 f = 2; } }'), (2, 'message X { required M f = 1 [(fm) = {}]; }'),
+    (2, 'option (m) = {};'), (2, 'option (m) = {n <a: 1>};'),
+]
+import re as _re
+_LC_TOK = _re.compile(r'"[^"]*"|[A-Za-z_][A-Za-z_0-9]*|[0-9]+|\S')
+
+
+def lc_catalogue():
+    """[(source text, token after the comment)]: every form of LC_SNIPPETS with one `//` comment in every gap"""
+    out = []
+    for k, (syn, sn) in enumerate(LC_SNIPPETS):
+        pre = LC_PRE3 if syn == 3 else LC_PRE2
+        ms = list(_LC_TOK.finditer(sn))
+        for i in range(len(ms) - 1):
+            a, b = ms[i], ms[i + 1]
+            c = [" // note\n", " // note\n  ", "// n;\n", " //\n"][(k + i) % 4]
+            out.append((pre + sn[:a.end()] + c + sn[b.start():] + "\n", b.group(0)))
+    return out
+
+
 def gen_source(rng, stratum):
     """stratum: plain | plain-nocomment | shuffled-plain | plain-blockcomments | flat-adversarial |
     adversarial.  Returns (text, meta)."""
@@ -670,6 +804,10 @@ def gen_source(rng, stratum):
         g = Gen(rng, size=rng.range(1, 2), shuffle_header=rng.chance(1, 5))
         text, n = render_blockcomments(g.file(), rng, share=rng.range(1, 3), limit=1)
         return text, {"stratum": stratum, "comments": n}
+    if stratum == "plain-onelinecomment":
+        g = Gen(rng, size=rng.range(1, 2), empties=True)
+        text, k = render_onelinecomment(g.file(), rng)
+        return text, {"stratum": stratum, "gap": k}
     if stratum == "plain":
         g = Gen(rng, size=rng.range(1, 4))
         return render_plain(g.file(), rng), {"stratum": stratum}
@@ -930,6 +1068,214 @@ def comment_features(tree):
                 prev2, prev, prev_kind = prev, t, k2
     walk(tree or [], "file")
     return F
+
+
+# ------------------------------------------------------------------ C31: where a `//` comment sits inside a declaration
+# A `//` comment between two tokens of one declaration comments out whatever the formatter prints after it on the
+# same line.  The formatter protects SOME positions (context.lineToBlock: the comment is rewritten to /* */ or a line
+# break is forced after it; a broken bracket scope puts every element on its own line) and not others (the known
+# finding format-changes-meaning:line-comment-inside-declaration).  A position is named
+#     <context>/<token before the comment>/<token after the comment>
+# context: the bracket scope the comment is in (dict, array, copts, sig, targs, extpath, extkey, string), or - directly
+#   in a file / body - the keyword the declaration starts with (`field` when it is not a keyword);
+# before:  open (the scope's opening bracket), `;` `,` `=` `:` word string, or the kind of the bracket pair that ends
+#   there (dict, array, copts, ..., with -empty when it holds no token);
+# after:   close (the scope's closing bracket), `;` `,` `=` `:` word string, or open-<kind of the bracket pair>.
+# A comment that does not trail the token before it (a line break or another comment in between) gets @own-line.
+DECL_KEYWORDS = {b"syntax", b"edition", b"package", b"import", b"option", b"message", b"enum", b"service", b"extend",
+                 b"oneof", b"rpc", b"reserved", b"extensions", b"map", b"group", b"returns", b"stream", b"optional",
+                 b"repeated", b"required"}
+
+
+def _tok_name(t, kind_of):
+    c = t["c"]
+    if c == 5:
+        return ";"
+    if c == 6:
+        return ","
+    if c == 7:
+        return "="
+    if c == 13:
+        return "string"
+    if c >= 9:
+        return kind_of
+    tx = _txt(t)
+    if tx in (b":", b".", b"-", b"/"):
+        return tx.decode()
+    if tx[:1] in b"\"'":
+        return "string"
+    return "word"
+
+
+def lc_positions(tree):
+    """[{"pos": position name, "text": bytes of the comment, "id": token id}] for every `//` comment that sits
+    inside a declaration (not at a declaration boundary), stream order"""
+    out = []
+
+    def walk(ts, kind):
+        prev = prev2 = None
+        prev_kind = None
+        head = None          # first token of the current declaration (file / body scopes)
+        run = []
+        for t in list(ts) + [None]:
+            if t is not None and t["c"] <= 4:
+                run.append(t)
+                continue
+            boundary_prev = prev is None or prev["c"] == 5 or (prev["c"] == 11 and prev_kind == "body")
+            if kind in ("file", "body") and boundary_prev:
+                head = t
+            lcs = [x for x in run if x["c"] == 2]
+            if lcs and not (kind in ("file", "body") and boundary_prev):
+                if kind in ("file", "body"):
+                    h = _txt(head) if head is not None else b""
+                    ctx = h.decode() if h in DECL_KEYWORDS else "field"
+                    if ctx in ("optional", "repeated", "required", "stream", "map", "group"):
+                        ctx = "field"
+                else:
+                    ctx = kind
+                if prev is None:
+                    before = "open"
+                else:
+                    before = _tok_name(prev, prev_kind)
+                    if prev["c"] >= 9 and prev["c"] != 13 and not any(x["c"] > 4 for x in prev["ch"]):
+                        before += "-empty"
+                if t is None:
+                    after = "close"
+                elif t["c"] >= 9 and t["c"] != 13:
+                    after = "open-" + scope_kind(t, kind, prev, prev2)
+                else:
+                    after = _tok_name(t, None)
+                for x in lcs:
+                    # the table of protected positions is about a comment that TRAILS the token before it: only
+                    # blanks between that token and the comment (no line break, no other comment)
+                    k = run.index(x)
+                    trails = all(y["c"] == 0 and b"\n" not in _txt(y) and b"\r" not in _txt(y) for y in run[:k])
+                    out.append({"pos": "%s/%s/%s" % (ctx, before, after) + ("" if trails else "@own-line"),
+                                "text": _txt(x), "id": x["id"]})
+            run = []
+            if t is not None:
+                k2 = None
+                if t["c"] >= 9:
+                    k2 = scope_kind(t, kind, prev, prev2)
+                    walk(t["ch"], k2)
+                prev2, prev, prev_kind = prev, t, k2
+    walk(tree or [], "file")
+    return out
+
+
+def line_comment_texts(tree):
+    """texts of the `//` comments of a token tree, stream order, right-trimmed"""
+    out = []
+
+    def walk(ts):
+        for t in ts:
+            if t["c"] == 2:
+                out.append(_txt(t).rstrip())
+            if t["c"] >= 9:
+                walk(t["ch"])
+    walk(tree or [])
+    return out
+
+
+# The positions in which the formatter as it is keeps a `//` comment harmless, per oracle and preset: observed
+# without a single failure on the unchanged tree over the whole catalogue (lc_catalogue) and 17000 generated files of
+# the stratum plain-onelinecomment (at least 8 files per entry).  A failure of a file all of whose `//` comments
+# inside declarations sit in protected positions is NOT the known finding `...:line-comment-inside-declaration`
+# (whose text is about the unprotected positions: before a value, between the words of a declaration, before the
+# `;` of a field / range / rpc, before a `,` ...), it gets a key of its own that names the position and is never
+# known.  Every position not listed here stays in the coarse known class.
+LC_PROTECTED = {"meaning": {"default": set(), "legacy": set()}, "idem": {"default": set(), "legacy": set()}}
+#LC_TABLE-BEGIN
+LC_PROTECTED["meaning"]["default"] = {
+    "array/,/word", "array/open/close", "array/open/word", "array/word/close", "copts/,/open-extpath",
+    "copts/,/word", "copts/dict-empty/close", "copts/dict/close", "copts/extpath/=", "copts/open/open-extpath",
+    "copts/open/word", "copts/string/close", "copts/word/,", "copts/word/=", "copts/word/close", "dict/,/close",
+    "dict/,/word", "dict/:/open-array", "dict/:/open-dict", "dict/;/close", "dict/;/word", "dict/array-empty/,",
+    "dict/array-empty/;", "dict/array-empty/close", "dict/array/,", "dict/array/;", "dict/array/close",
+    "dict/dict-empty/,", "dict/dict-empty/;", "dict/dict-empty/close", "dict/dict/,", "dict/dict/;",
+    "dict/dict/close", "dict/open/close", "dict/open/word", "dict/string/,", "dict/string/;", "dict/string/close",
+    "dict/string/word", "dict/word/,", "dict/word/:", "dict/word/;", "dict/word/close", "dict/word/open-dict",
+    "enum/word/open-body", "extend/./word", "extend/word/.", "extend/word/open-body", "extpath/open/word",
+    "extpath/word/close", "field/./word", "field/word/.", "field/word/=", "field/word/open-targs",
+    "message/word/open-body", "option/dict-empty/;", "option/dict/;", "option/extpath/=", "option/string/;",
+    "option/word/;", "option/word/=", "package/./word", "package/word/.", "package/word/;",
+    "service/word/open-body", "sig/word/close", "string/open/close", "string/open/string", "string/string/close",
+    "targs/word/,", "targs/word/close"}
+LC_PROTECTED["meaning"]["legacy"] = {
+    "array/,/word", "array/open/close", "copts/,/open-extpath", "copts/,/word", "copts/dict-empty/close",
+    "copts/dict/close", "copts/extpath/=", "copts/open/open-extpath", "copts/open/word", "copts/string/close",
+    "copts/word/,", "copts/word/=", "copts/word/close", "dict/,/close", "dict/,/word", "dict/:/open-array",
+    "dict/:/open-dict", "dict/;/close", "dict/;/word", "dict/array-empty/,", "dict/array-empty/;", "dict/array/;",
+    "dict/dict/,", "dict/open/close", "dict/open/word", "dict/string/,", "dict/string/;", "dict/string/close",
+    "dict/string/word", "dict/word/,", "dict/word/:", "dict/word/;", "dict/word/close", "dict/word/open-dict",
+    "enum/word/open-body", "extend/./word", "extend/word/.", "extend/word/open-body", "extpath/open/word",
+    "extpath/word/close", "field/./word", "field/word/.", "field/word/=", "field/word/open-targs",
+    "message/word/open-body", "option/dict-empty/;", "option/dict/;", "option/extpath/=", "option/string/;",
+    "option/word/;", "option/word/=", "package/./word", "package/word/.", "package/word/;",
+    "service/word/open-body", "sig/word/close", "string/open/close", "string/open/string", "string/string/close",
+    "targs/word/,", "targs/word/close"}
+LC_PROTECTED["idem"]["default"] = {
+    "array/,/word", "array/open/close", "array/open/word", "array/word/close", "copts/,/open-extpath",
+    "copts/,/word", "copts/dict-empty/close", "copts/dict/close", "copts/extpath/=", "copts/open/open-extpath",
+    "copts/open/word", "copts/string/close", "copts/word/,", "copts/word/=", "copts/word/close", "dict/,/close",
+    "dict/,/word", "dict/:/open-array", "dict/:/open-dict", "dict/;/close", "dict/;/word", "dict/array-empty/,",
+    "dict/array-empty/;", "dict/array-empty/close", "dict/array/,", "dict/array/;", "dict/array/close",
+    "dict/dict-empty/,", "dict/dict-empty/;", "dict/dict-empty/close", "dict/dict/,", "dict/dict/;",
+    "dict/dict/close", "dict/open/close", "dict/open/word", "dict/string/,", "dict/string/;", "dict/string/close",
+    "dict/string/word", "dict/word/,", "dict/word/:", "dict/word/;", "dict/word/close", "dict/word/open-dict",
+    "enum/word/open-body", "extend/./word", "extend/word/.", "extend/word/open-body", "extpath/open/word",
+    "extpath/word/close", "field/./word", "field/word/.", "field/word/=", "field/word/open-targs",
+    "message/word/open-body", "option/dict-empty/;", "option/dict/;", "option/extpath/=", "option/string/;",
+    "option/word/;", "option/word/=", "package/./word", "package/word/.", "package/word/;",
+    "service/word/open-body", "sig/word/close", "string/open/close", "string/open/string", "string/string/close",
+    "targs/word/,", "targs/word/close"}
+LC_PROTECTED["idem"]["legacy"] = {
+    "array/,/word", "array/open/close", "copts/,/open-extpath", "copts/,/word", "copts/dict-empty/close",
+    "copts/dict/close", "copts/extpath/=", "copts/open/open-extpath", "copts/open/word", "copts/string/close",
+    "copts/word/,", "copts/word/=", "dict/,/word", "dict/:/open-array", "dict/:/open-dict", "dict/;/word",
+    "dict/array-empty/,", "dict/array-empty/;", "dict/array/;", "dict/dict/,", "dict/open/close",
+    "dict/open/word", "dict/string/,", "dict/string/;", "dict/string/close", "dict/string/word", "dict/word/,",
+    "dict/word/;", "dict/word/close", "enum/word/open-body", "extend/./word", "extend/word/.",
+    "extend/word/open-body", "extpath/word/close", "field/./word", "field/word/.", "field/word/=",
+    "field/word/open-targs", "message/word/open-body", "option/dict-empty/;", "option/dict/;", "option/extpath/=",
+    "option/string/;", "option/word/;", "option/word/=", "package/./word", "package/word/.", "package/word/;",
+    "service/word/open-body", "sig/word/close", "string/open/close", "string/open/string", "string/string/close",
+    "targs/word/,", "targs/word/close"}
+#LC_TABLE-END
+
+_KEY_NAMES = {";": "semicolon", ",": "comma", "=": "equals", ":": "colon", ".": "dot", "-": "minus", "/": "slash"}
+
+
+def lc_key(pos):
+    return "-".join(_KEY_NAMES.get(x, x) for x in pos.split("/", 2))
+
+
+def lc_class(poss, preset, oracle, tree, tree1):
+    """the class a failure of a file with `//` comments inside declarations (poss = lc_positions) is attributed
+    to.  With the token trees of source and formatted output (meaning oracle) the judgement is narrowed to the
+    comments that GREW in the output - a formatted `//` comment that no source comment equals and that begins
+    with the source comment's text has swallowed the tokens printed after it - when there are any.
+    Returns (class, positions of the comments that grew)."""
+    who = []
+    table = LC_PROTECTED[oracle][preset]
+    if tree is not None and tree1 is not None:
+        every = line_comment_texts(tree)
+        have = set(every)
+        grown = [c for c in line_comment_texts(tree1) if c not in have]
+        cul = [p for p in poss if any(g.startswith(p["text"].rstrip()) for g in grown)]
+        if cul:
+            who = sorted(set(p["pos"] for p in cul))
+            # a comment that certainly grew: the only source comment whose text a grown comment begins with
+            for g in grown:
+                cand = [c for c in every if g.startswith(c)]
+                if len(cand) == 1:
+                    for p in cul:
+                        if p["text"].rstrip() == cand[0] and p["pos"] in table:
+                            return "line-comment-in-protected-position:" + lc_key(p["pos"]), who
+            poss = cul
+    if poss and all(p["pos"] in table for p in poss):
+        return "line-comment-in-protected-position:" + lc_key(poss[0]["pos"]), who
+    return "line-comment-inside-declaration", who
 
 
 def layout_class(tree, stratum, decl_info=None):
